@@ -67,9 +67,120 @@ theorem makeBackupFor_again (o : Options) (p : Bytes) (s : DState) (hin : s.back
     (makeBackupFor o p).run s = (.ok (), s) := by
   rw [makeBackupFor_run, if_pos hin]
 
+/-! ### the backup is made right before the write — also for deferred (git) writes
+
+    `write_patched_result_to_file` makes the backup itself (the caller only says whether one is due), after `make_writable` and before
+    the file is re-created; for a deferred write the request is recorded (`DeferredWrite.backup`) and `DeferredWriter::finalize` does
+    the same steps.  `DriverFacts.writeNow` is that common sequence. -/
+
+/-- what `DeferredWriter::finalize` does for one deferred write -/
+def finalizeWrite (o : Options) (w : DeferredWrite) : DM Unit := do
+  ensureParentDirs w.dest
+  writeNow o w.dest w.perm w.backup w.content w.newMode
+
+/-- `DeferredWriter::finalize`: `finalizeWrite` for every deferred write in turn, then the removals -/
+theorem finalizeDeferred_writes (o : Options) :
+    finalizeDeferred o = (do
+      let s ← get
+      for w in s.dWrites do finalizeWrite o w
+      for p in s.dRemovals do
+        if !(s.dWrites.any (·.dest == p)) then removeFileAndEmptyParents p) := by
+  rw [finalizeDeferred_eq]
+  simp only [finalizeWrite, bind_assoc]
+
+/-- the operations of `pre; writeNow …` where `pre` only creates directories: `pre ++ bk ++ post` with
+    * `pre`: `mkdir`s and the `chmod` that makes a read-only target writable,
+    * `bk`: the backup — the `rename` of the target to its backup name, or the `creat` of an empty backup —, or nothing,
+    * `post`: the `creat` of the target, followed by its `write` and the `chmod` of the permission callback;
+    **if a backup is due (`sb`, and none was made for this name before), nothing happens to the target before the backup operation
+    has succeeded**; if none is due, none is made; on success the target has been created -/
+theorem writeNow_backup_first {pre : DM Unit} (o : Options) (out : Bytes) (perm : PermResult) (sb : Bool) (content : Bytes) (nm : Nat)
+    (hk : ∀ s s1 r, pre.run s = (r, s1) → s1.cwd = s.cwd ∧ s1.backedUp = s.backedUp)
+    (ht : TrExt (fun op => ∃ d, op = FsOp.mkdir d) pre)
+    (s s' : DState) (r : Except Exn Unit)
+    (h : (pre >>= fun _ => writeNow o out perm sb content nm).run s = (r, s')) :
+    ∃ pre bk post, s'.trace = s.trace ++ pre ++ bk ++ post ∧
+      (∀ op ∈ pre, (∃ d, op = FsOp.mkdir d) ∨ ∃ m, op = FsOp.chmod (absPath s out) m) ∧
+      (bk = [] ∨ bk = [FsOp.rename (absPath s out) (absPath s (backupName o out))] ∨
+        bk = [FsOp.creat (absPath s (backupName o out))]) ∧
+      (post = [] ∨ ∃ rest, post = FsOp.creat (absPath s out) :: rest ∧
+        ∀ op ∈ rest, (∃ b, op = FsOp.write (absPath s out) b) ∨ ∃ m, op = FsOp.chmod (absPath s out) m) ∧
+      (sb = true → s.backedUp.contains (backupName o out) = false → bk = [] → post = []) ∧
+      (sb = false ∨ s.backedUp.contains (backupName o out) = true → bk = []) ∧
+      (r = .ok () → post ≠ []) := by
+  rw [run_bind] at h
+  split at h
+  · next _ s1 h1 =>
+    obtain ⟨c1, b1⟩ := hk _ _ _ h1
+    obtain ⟨D, t1, hD⟩ := ht.run h1
+    obtain ⟨-, W, B, C, t, hW, hB, hC, hfirst, hnone, hok, -⟩ := writeNow_shape _ _ _ _ _ _ h
+    rw [absPath_cwd c1] at hW hC
+    rw [absPath_cwd c1, absPath_cwd c1] at hB
+    rw [b1] at hfirst hnone
+    refine ⟨D ++ W, B, C, by rw [t, t1]; simp only [List.append_assoc], ?_, hB, hC, hfirst, hnone, hok⟩
+    intro op hop
+    rcases List.mem_append.1 hop with h | h
+    · exact Or.inl (hD op h)
+    · rcases hW with rfl | ⟨m, rfl⟩
+      · cases h
+      · rw [List.mem_singleton.1 h]; exact Or.inr ⟨m, rfl⟩
+  · next e s1 h1 =>
+    cases h
+    obtain ⟨D, t1, hD⟩ := ht.run h1
+    exact ⟨D, [], [], by rw [t1]; simp, fun op hop => Or.inl (hD op hop), Or.inl rfl, Or.inl rfl, fun _ _ _ => rfl,
+      fun _ => rfl, fun he => (by cases he)⟩
+
+/-- **`DeferredWriter::finalize` backs up before it writes**: for a deferred write with `backup = true` whose backup name has not been
+    used yet, the first operation that is neither a `mkdir` nor the `chmod` of `make_writable` is the backup (`rename` of the
+    destination to the backup name, or `creat` of an empty backup); only then is the destination created.  Without a backup request
+    (or when the backup exists already) no backup operation is made. -/
+theorem finalize_backup_first (o : Options) (w : DeferredWrite) (s s' : DState) (r : Except Exn Unit)
+    (h : (finalizeWrite o w).run s = (r, s')) :
+    ∃ pre bk post, s'.trace = s.trace ++ pre ++ bk ++ post ∧
+      (∀ op ∈ pre, (∃ d, op = FsOp.mkdir d) ∨ ∃ m, op = FsOp.chmod (absPath s w.dest) m) ∧
+      (bk = [] ∨ bk = [FsOp.rename (absPath s w.dest) (absPath s (backupName o w.dest))] ∨
+        bk = [FsOp.creat (absPath s (backupName o w.dest))]) ∧
+      (post = [] ∨ ∃ rest, post = FsOp.creat (absPath s w.dest) :: rest ∧
+        ∀ op ∈ rest, (∃ b, op = FsOp.write (absPath s w.dest) b) ∨ ∃ m, op = FsOp.chmod (absPath s w.dest) m) ∧
+      (w.backup = true → s.backedUp.contains (backupName o w.dest) = false → bk = [] → post = []) ∧
+      (w.backup = false ∨ s.backedUp.contains (backupName o w.dest) = true → bk = []) ∧
+      (r = .ok () → post ≠ []) :=
+  writeNow_backup_first o w.dest w.perm w.backup w.content w.newMode
+    (fun _ _ _ h1 => ⟨ensureParentDirs_keeps (·.cwd) (fun _ _ _ _ => rfl) _ h1,
+      ensureParentDirs_keeps (·.backedUp) (fun _ _ _ _ => rfl) _ h1⟩)
+    (ensureParentDirs_trExt (fun d => ⟨d, rfl⟩) w.dest) s s' r h
+
+/-- the same for the immediate write of `write_patched_result_to_file` (anything but a git patch, or a git deletion): the backup
+    is made by `writePatchedResult` itself, after `make_writable` and before the file is re-created -/
+theorem direct_write_backup_first (o : Options) (p : Patch) (out : Bytes) (perm : PermResult) (sb : Bool) (content : Bytes)
+    (hc : (p.format == .git && p.operation != .delete) = false) (s s' : DState) (r : Except Exn Unit)
+    (h : (writePatchedResult o p out perm sb content).run s = (r, s')) :
+    ∃ pre bk post, s'.trace = s.trace ++ pre ++ bk ++ post ∧
+      (∀ op ∈ pre, (∃ d, op = FsOp.mkdir d) ∨ ∃ m, op = FsOp.chmod (absPath s out) m) ∧
+      (bk = [] ∨ bk = [FsOp.rename (absPath s out) (absPath s (backupName o out))] ∨
+        bk = [FsOp.creat (absPath s (backupName o out))]) ∧
+      (post = [] ∨ ∃ rest, post = FsOp.creat (absPath s out) :: rest ∧
+        ∀ op ∈ rest, (∃ b, op = FsOp.write (absPath s out) b) ∨ ∃ m, op = FsOp.chmod (absPath s out) m) ∧
+      (sb = true → s.backedUp.contains (backupName o out) = false → bk = [] → post = []) ∧
+      (sb = false ∨ s.backedUp.contains (backupName o out) = true → bk = []) ∧
+      (r = .ok () → post ≠ []) := by
+  rw [writePatchedResult_direct o p out perm sb content hc] at h
+  refine writeNow_backup_first o out perm sb content p.newMode ?_ ?_ s s' r h
+  · intro s s1 r h1
+    split at h1
+    · exact ⟨ensureParentDirs_keeps (·.cwd) (fun _ _ _ _ => rfl) _ h1,
+        ensureParentDirs_keeps (·.backedUp) (fun _ _ _ _ => rfl) _ h1⟩
+    · cases h1; exact ⟨rfl, rfl⟩
+  · have := ensureParentDirs_trExt (A := fun op => ∃ d, op = FsOp.mkdir d) (fun d => ⟨d, rfl⟩)
+    spec_walk (good_ext _)
+
 end PatchModel.C18
 
 #print axioms PatchModel.C18.backupName_spec
 #print axioms PatchModel.C18.makeBackupFor_existing
 #print axioms PatchModel.C18.makeBackupFor_absent
 #print axioms PatchModel.C18.makeBackupFor_again
+#print axioms PatchModel.C18.finalizeDeferred_writes
+#print axioms PatchModel.C18.writeNow_backup_first
+#print axioms PatchModel.C18.finalize_backup_first
+#print axioms PatchModel.C18.direct_write_backup_first
